@@ -704,16 +704,48 @@ func phiDisjunction(ph *ssa.Phi, want bool) []Fact {
 			if cb != want {
 				continue
 			}
-			ifi, ok := pred.Instrs[len(pred.Instrs)-1].(*ssa.If)
-			if !ok || pred.Succs[0] == pred.Succs[1] {
+			rs := edgeReasons(pred, ph.Block(), 0)
+			if rs == nil {
 				return nil
 			}
-			out = append(out, Fact{ifi.Cond, pred.Succs[0] == ph.Block(), ifi})
+			out = append(out, rs...)
 			continue
 		}
 		out = append(out, Fact{e, want, nil})
 	}
 	return out
+}
+
+// edgeReasons: the alternative branch facts under which control goes from block `from` to
+// its successor `to`: the branch at the end of `from`, or - when `from` ends in a plain jump
+// (the body of a multi-value `case`, the landing block of an inlined `return true`) - the
+// reasons of the edges entering `from`. nil when some entering edge cannot be described.
+func edgeReasons(from, to *ssa.BasicBlock, depth int) []Fact {
+	if depth > 4 || len(from.Instrs) == 0 {
+		return nil
+	}
+	switch last := from.Instrs[len(from.Instrs)-1].(type) {
+	case *ssa.If:
+		if from.Succs[0] == from.Succs[1] {
+			return nil
+		}
+		return []Fact{{last.Cond, from.Succs[0] == to, last}}
+	case *ssa.Jump:
+		var out []Fact
+		eps := effectivePreds(from)
+		if len(eps) == 0 {
+			return nil
+		}
+		for _, q := range eps {
+			rs := edgeReasons(q, from, depth+1)
+			if rs == nil {
+				return nil
+			}
+			out = append(out, rs...)
+		}
+		return out
+	}
+	return nil
 }
 
 // disjunctiveJoins: for every block on the dominator path of b that has several
